@@ -617,3 +617,73 @@ def rule_load_semantics(check: Check, rule: str = "RL-sem") -> None:
         check.require(bad is None, rule, f"Rule.{meth}/both-parts", (f"Rule.{meth} deactivates the rule and {'loads' if meth == 'load' else 'unloads'} antecedent and consequent "
                                                                      f"whatever was loaded before ({cases} states)") if bad is None else bad, loc(fn), {"cases": cases},
                       exhaustive=True, cases=cases)
+
+
+# --------------------------------------------------------------------------------------------------------------- CF-sem
+def engine_configure_semantics(check: Check, rule: str = "CF-sem", kinds: tuple[str, ...] = ("conjunction", "disjunction", "implication", "activation", "aggregation", "defuzzifier")) -> None:
+    """CF-sem [E on the model engines]: `Engine.configure(...)` interpreted (sa/objexec.py) on an engine with two rule blocks and two output variables,
+    with components given as objects that carry parameters (a weighted defuzzifier of a fixed kind, an integral one with a resolution, an activation
+    method with a count and a threshold) and as class names: afterwards every rule block / output variable holds a component of the class given
+    *with the parameters given* (the same object or an equal one), and `None` where none was given."""
+    from ..absexec import Internal, MObj, Raised, Unknown
+    from .roundtrip_sem import E0, Counter, differences, new_exec
+
+    p = check.program
+    fn = p.func("Engine.configure")
+    check.analysed(fn)
+    bad: dict[str, str] = {}
+    cases = 0
+    try:
+        for variant in range(3):
+            cases += 1
+            ex = new_exec(p)
+            cnt = Counter()
+
+            def C(cname, *a, **k):
+                return ex.instantiate(p.cls(cname), list(a), k, E0)
+
+            wtype = ex.members(p.cls("WeightedDefuzzifier.Type"))[1 + variant % 2]
+            given = {
+                "conjunction": [C("AlgebraicProduct"), "Minimum", None][variant],
+                "disjunction": [C("AlgebraicSum"), "Maximum", None][variant],
+                "implication": [C("Minimum"), "AlgebraicProduct", None][variant],
+                "activation": [C("First", rules=2, threshold=cnt.sym("t")), "General", C("Highest", rules=3)][variant],
+                "aggregation": [C("Maximum"), "UnboundedSum", None][variant],
+                "defuzzifier": [C("WeightedAverage", type=wtype), "Centroid", C("Centroid", resolution=7)][variant],
+            }
+            blocks = [C("RuleBlock", name="b0"), C("RuleBlock", name="b1")]
+            outs = [C("OutputVariable", name="o0"), C("OutputVariable", name="o1")]
+            eng = C("Engine", name="model", output_variables=outs, rule_blocks=blocks, load=False)
+            try:
+                ex.invoke(fn, [eng], dict(given), E0)
+            except (Raised, Internal) as err:
+                bad.setdefault("no-internal-error", f"Engine.configure ends with {err.cls}")
+                continue
+            for kind in kinds:
+                want = given[kind]
+                holders = blocks if kind in ("conjunction", "disjunction", "implication", "activation") else outs
+                for h in holders:
+                    got = ex.attr(h, kind, E0)
+                    where = f"the {h.cls} `{h.fields.get('name')}`"
+                    if want is None:
+                        if got is not None:
+                            bad.setdefault(kind, f"Engine.configure without a {kind}: {where} holds a {getattr(got, 'cls', got)} afterwards, specified none")
+                    elif isinstance(want, str):
+                        if not (isinstance(got, MObj) and got.cls == want):
+                            bad.setdefault(kind, f"Engine.configure({kind}='{want}'): {where} holds {getattr(got, 'cls', got)!r} afterwards")
+                    else:
+                        diffs: list[str] = []
+                        if not isinstance(got, MObj):
+                            diffs = [f"{where} holds {got!r}"]
+                        else:
+                            differences(want, got, "", diffs, set(), limit=3)
+                        if diffs:
+                            import re
+                            bad.setdefault(kind, f"Engine.configure({kind}=<a {want.cls} with parameters>): {where} does not hold that component afterwards - "
+                                                 f"{re.sub(r'^<[^>]+> ', '', diffs[0])} (a component rebuilt from its class name alone loses what it was configured with)")
+    except Unknown as u:
+        raise AnalysisError(str(u)) from None
+    for kind in kinds:
+        hit = bad.get(kind) or bad.get("no-internal-error")
+        check.require(hit is None, rule, f"Engine.configure/{kind}", f"every holder gets the {kind} that was given, with its parameters ({cases} model engines)" if hit is None else hit,
+                      loc(fn), exhaustive=True, cases=cases)
